@@ -158,17 +158,10 @@ class RTDCWriter:
 
         - fluorescence:channel count
         """
-        # set event count
         feats = sorted(self.h5file.get("events", {}).keys())
-        if feats:
-            obj0 = self.h5file["events"][feats[0]]
-            if feats[0] == "trace" and len(obj0):
-                # The "trace" group holds one dataset per trace; its
-                # length is the number of traces, not of events.
-                obj0 = obj0[sorted(obj0.keys())[0]]
-            self.h5file.attrs["experiment:event count"] = len(obj0)
-        else:
+        if not feats:
             raise ValueError(f"No features in '{self.path}'!")
+        feats_all = list(feats)
 
         # ignore empty features in the checks further below
         for feat in feats[:]:  # iterate over a copy of the list
@@ -176,6 +169,15 @@ class RTDCWriter:
             if ((isinstance(feat, h5py.Dataset) and obj.shape[0] == 0)  # ds
                     or len(obj) == 0):  # groups
                 feats.remove(feat)
+
+        # set event count (from the first feature that is not empty)
+        feat0 = feats[0] if feats else feats_all[0]
+        obj0 = self.h5file["events"][feat0]
+        if feat0 == "trace" and len(obj0):
+            # The "trace" group holds one dataset per trace; its
+            # length is the number of traces, not of events.
+            obj0 = obj0[sorted(obj0.keys())[0]]
+        self.h5file.attrs["experiment:event count"] = len(obj0)
 
         # set samples per event
         if "trace" in feats:
